@@ -1,0 +1,22 @@
+//go:build verif
+
+package bexpr
+
+import "github.com/hashicorp/go-bexpr/grammar"
+
+// This file is only compiled with the `verif` build tag. It gives external
+// runtime monitors read-only access to an evaluator's syntax tree so that
+// they can assert, at quiescent points, that evaluation left it unchanged.
+
+// VerifAST returns the syntax tree held by the evaluator.
+func (eval *Evaluator) VerifAST() grammar.Expression {
+	return eval.ast
+}
+
+// VerifEvaluator returns the evaluator wrapped by the filter.
+func (f *Filter) VerifEvaluator() *Evaluator {
+	if f == nil {
+		return nil
+	}
+	return f.evaluator
+}
